@@ -1,7 +1,7 @@
 (** Pinned statements of the C17 property theorems: compiled on every check, so a theorem cannot be
     weakened silently. *)
-From V Require Import Base.Util C17.Sites C17.Model C17.Spec C17.Proofs C17.Properties.
-From V Require Gen.C17_sites_gen.
+From V Require Import Base.Util Gql.Ast Writer.Wop Ts.TsType Ts.TsDen C17.Sites C17.Model C17.Spec C17.Proofs C17.Full C17.Branches C17.Properties.
+From V Require Gen.C17_sites_gen C10.Model C10.Spec C01.Model C17.Denot.
 From Coq Require Import Permutation Sorting.Sorted.
 
 Check (C17_all_sites_accounted : forallb site_known Gen.C17_sites_gen.scanned_sites = true).
@@ -52,6 +52,48 @@ Check (C17_skeleton_def_permutation : forall (pi : oracle) (o : hmap scfg) (doc 
   is_oracle pi -> Permutation doc doc' -> NoDup (map d_name (type_defs doc)) ->
   forall l, print_skeleton pi o doc = Ok l ->
   exists l', print_skeleton pi o doc' = Ok l' /\ decls_equiv l l').
+Check (C17_full_output_oracle_irrelevant : forall (p1 p2 p1' p2' : oracle) cfg meta optional runtime ro plugins doc,
+  is_oracle p1 -> is_oracle p2 -> is_oracle p1' -> is_oracle p2' -> NoDup (keys cfg) ->
+  full_gen p1 p2 cfg meta optional runtime ro plugins doc = full_gen p1' p2' cfg meta optional runtime ro plugins doc).
+Check (C17_full_schema_is_C10_print_schema : forall (p1 p2 : oracle) cfg meta optional runtime doc,
+  is_oracle p1 -> is_oracle p2 -> NoDup (keys cfg) ->
+  full_schema p1 p2 cfg meta optional runtime doc
+  = C10.Model.print_schema
+      (C10.Model.mkSOpts (x_scalars (hm_extend builtin_scalar_types cfg)) meta optional runtime) doc).
+Check (C17_resolver_map_lookup_only : forall o plugins doc (m : C10.Model.tymap),
+  (forall k, assoc k m = assoc k (fold_left (fun acc t => (C10.Model.tname t, C10.Model.resolver_output_type o doc t) :: acc)
+                                            (C10.Model.typedefs doc) [])) ->
+  C10.Model.bind (resolver_map_from o plugins doc m) (resolver_tail o plugins doc)
+  = C10.Model.resolver_structure o plugins doc).
+Check (C17_alias_denotation_permutation : forall o doc doc' nss t T body,
+  Permutation doc doc' -> C10.Spec.wf_schema o doc = true ->
+  C10.Model.schema_decls o doc = C10.Model.Ok nss -> C10.Spec.applicable doc t T = true ->
+  C10.Spec.alias_of (C10.Spec.namespace_of nss t) T = Some body ->
+  exists nss' body',
+    C10.Model.schema_decls o doc' = C10.Model.Ok nss'
+    /\ C10.Spec.alias_of (C10.Spec.namespace_of nss' t) T = Some body'
+    /\ forall v,
+         (In_type (C10.Spec.ns_env (C10.Spec.namespace_of nss t)) body v
+          <-> In_type (C10.Spec.ns_env (C10.Spec.namespace_of nss' t)) body' v)
+         /\ (NotIn_type (C10.Spec.ns_env (C10.Spec.namespace_of nss t)) body v
+             <-> NotIn_type (C10.Spec.ns_env (C10.Spec.namespace_of nss' t)) body' v)).
+Check (C17_Ref_permutation : forall doc doc', Permutation doc doc' ->
+  nodup_keys (map C10.Model.tname (C10.Model.typedefs doc)) = true ->
+  forall o t T v, C10.Spec.Ref o doc t T v = C10.Spec.Ref o doc' t T v).
+Check (C17_branch_order_spec : forall fuel S F sels parent objs vars,
+  C01.Model.parent_objects S parent = C01.Model.Ok objs ->
+  C01.Model.get_boolean_variables fuel F sels = C01.Model.Ok vars ->
+  C01.Model.generate_branching_conditions fuel S F sels parent
+  = C01.Model.Ok (flat_map (fun o => map (fun a => C01.Model.mkBr o a)
+                      (match vars with [] => [[]] | _ => C01.Model.assignments (C01.Model.unique vars) end)) objs)
+  /\ NoDup (C01.Model.unique vars) /\ (forall x, In x (C01.Model.unique vars) <-> In x vars)).
+Check (C17_unique_first_occurrence : forall l x,
+  C01.Model.unique (l ++ [x]) = if C01.Model.mem x l then C01.Model.unique l else C01.Model.unique l ++ [x]).
+Check (C17_branching_hashset_id : forall fuel S F sels parent,
+  branching_hashset o_id fuel S F sels parent = C01.Model.generate_branching_conditions fuel S F sels parent).
+Check (C17_branching_hashset_refuted : exists (pi pi' : oracle), is_oracle pi /\ is_oracle pi' /\
+    branching_hashset pi 5 ex_schema [] ex_sels (s "Query") <> branching_hashset pi' 5 ex_schema [] ex_sels (s "Query")
+    /\ exists l, branching_hashset pi 5 ex_schema [] ex_sels (s "Query") = C01.Model.Ok l /\ List.length l = 4%nat).
 Print Assumptions C17_all_sites_accounted.
 Print Assumptions C17_known_sites_all_scanned.
 Print Assumptions C17_all_hash_files_accounted.
@@ -67,3 +109,12 @@ Print Assumptions C17_extension_list_sorted.
 Print Assumptions C17_resolve_verdict.
 Print Assumptions C17_resolve_verdict_permutation.
 Print Assumptions C17_skeleton_def_permutation.
+Print Assumptions C17_full_output_oracle_irrelevant.
+Print Assumptions C17_full_schema_is_C10_print_schema.
+Print Assumptions C17_resolver_map_lookup_only.
+Print Assumptions C17_alias_denotation_permutation.
+Print Assumptions C17_Ref_permutation.
+Print Assumptions C17_branch_order_spec.
+Print Assumptions C17_unique_first_occurrence.
+Print Assumptions C17_branching_hashset_id.
+Print Assumptions C17_branching_hashset_refuted.
